@@ -8,7 +8,8 @@
     M5 as modelled ([write]): a Write delivers all its bytes, or a strict prefix after which the connection
     carries nothing more; only the second case can return an error (C14_failed_write_is_strict_prefix). *)
 From Coq Require Import List NArith ZArith Lia.
-From Vivid Require Import Codec.Prim Remoting.Frame Remoting.FrameProofs Remoting.Link Remoting.LinkProofs.
+From Vivid Require Import Codec.Prim Remoting.Frame Remoting.FrameProofs Remoting.Link Remoting.LinkProofs
+  Remoting.LinkPeers Remoting.LinkPeersProofs.
 Import ListNotations.
 Local Open Scope N_scope.
 
@@ -163,6 +164,67 @@ Theorem C14_tell_nonblocking_partial :
     exists tr, trace s' = trace s ++ tr /\ count_sleeps tr = 0.
 Proof. exact (@try_loop_limit0_no_sleep). Qed.
 
+(** SEVERAL PEERS (model: Remoting/LinkPeers.v).  One Mailbox per remote address, each with its own connection, lock
+    and back-off counter; Enqueue calls to different mailboxes interleave at the granularity of one iteration of
+    backoff.Try's loop ([iter]; [try_loop] is its iteration: C14_enqueue_is_iterated_step).  [pair_run] runs two
+    mailboxes under an arbitrary schedule. *)
+Theorem C14_enqueue_is_iterated_step :
+  forall (M : Type) (encode : M -> option bytes) (limit : N) (m : M) (script : list answers) (s s' : st)
+         (rest : list answers),
+    try_loop encode limit m script s = (s', rest, true) ->
+    exists used, script = used ++ rest /\ run_iters encode limit (map (fun a => (m, a)) used) s = s'.
+Proof. exact (@try_loop_iters). Qed.
+
+(** independence: under every schedule the run of each mailbox is the run of its own iterations alone; the
+    iterations of the other one, interleaved anywhere, change nothing *)
+Theorem C14_peers_independent :
+  forall (M : Type) (encode : M -> option bytes) (limit : N) (evs : list (peer * (M * answers))) (sR sH : st),
+    fst (pair_run encode limit evs (sR, sH)) = run_iters encode limit (proj PR evs) sR /\
+    snd (pair_run encode limit evs (sR, sH)) = run_iters encode limit (proj PH evs) sH.
+Proof. exact (@pair_run_independent). Qed.
+
+(** hence the dead letter after limit+1 failed attempts (C14_dead_letter_after_exhaustion) holds for the refusing
+    peer under ANY traffic to another peer interleaved with its retries: exactly [limit] sleeps, then the dead letter *)
+Theorem C14_dead_letter_after_exhaustion_two_peers :
+  forall (M : Type) (encode : M -> option bytes) (limit : N) (m : M) (data : bytes) (n : nat)
+         (script : list answers) (evs : list (peer * (M * answers))) (sR sH : st),
+    wire_of encode m = Some data ->
+    attempt sR + N.of_nat n = limit ->
+    (n < length script)%nat -> Forall hard_fail (firstn (S n) script) ->
+    proj PR evs = map (fun a => (m, a)) (firstn (S n) script) ->
+    let sR' := fst (pair_run encode limit evs (sR, sH)) in
+    dead sR' = dead sR ++ [m] /\ attempt sR' = 0 /\
+    exists tr, trace sR' = trace sR ++ tr /\ count_sleeps tr = N.of_nat n.
+Proof. exact (@two_peers_dead_letter). Qed.
+
+(** what the theorem excludes: if the two mailboxes shared ONE attempt counter ([shared_run]: not the code), then
+    with ReconnectLimit >= 1, a peer that refuses and another mailbox whose Enqueue returns between any two retries
+    (every return resets the counter), the message to the refusing peer is never dead-lettered, however many
+    attempts fail ... *)
+Theorem C14_shared_counter_never_dead_letters :
+  forall (M : Type) (encode : M -> option bytes) (limit : N) (mr : M) (ar : answers) (mh : M) (ah : answers) (data : bytes),
+    wire_of encode mr = Some data -> hard_fail ar -> 1 <= limit ->
+    (forall s : st, snd (iter encode limit mh ah s) = true) ->
+    forall (n : nat) (sR sH : st), attempt sR = 0 ->
+      let p := shared_run encode limit (alternate n mr ar mh ah) (sR, sH) in
+      dead (fst p) = dead sR /\ attempt (fst p) = 0.
+Proof. exact (@shared_counter_never_dead_letters). Qed.
+
+(** ... witness (also the non-vacuity of the hypotheses above): limit 1, R refuses, H's Enqueue returns at once;
+    with a shared counter no dead letter after any number n of failed attempts, with separate counters the dead
+    letter after the second one *)
+Theorem C14_shared_counter_refuted :
+  forall n : nat,
+    dead (fst (shared_run id_encode 1 (alternate n [7] refuse_closed [8] stopped) (init, init))) = [] /\
+    dead (fst (pair_run id_encode 1 (alternate 2 [7] refuse_closed [8] stopped) (init, init))) = [[7]].
+Proof. exact shared_counter_refuted. Qed.
+
+Example C14_two_peers_example :
+  wire_of id_encode [7] = Some (frame [7]) /\ hard_fail refuse_closed /\ 1 <= 1 /\
+  (forall s : @st bytes, snd (iter id_encode 1 [8] stopped s) = true) /\
+  proj PR (alternate 2 [7] refuse_closed [8] stopped) = map (fun a => ([7], a)) (firstn 2 [refuse_closed; refuse_closed]).
+Proof. repeat split; try reflexivity. Qed.
+
 Print Assumptions C14_subsequence_partial.
 Print Assumptions C14_overlap_reorder_refuted.
 Print Assumptions C14_cut_frame_never_delivered.
@@ -178,3 +240,8 @@ Print Assumptions C14_failure_drops_connection.
 Print Assumptions C14_reachable_states_satisfy_Inv.
 Print Assumptions C14_tell_nonblocking_refuted.
 Print Assumptions C14_tell_nonblocking_partial.
+Print Assumptions C14_enqueue_is_iterated_step.
+Print Assumptions C14_peers_independent.
+Print Assumptions C14_dead_letter_after_exhaustion_two_peers.
+Print Assumptions C14_shared_counter_never_dead_letters.
+Print Assumptions C14_shared_counter_refuted.
